@@ -65,6 +65,16 @@ def Obj.smul {q : Nat} (k : Rat) (a : Obj q) : Obj q :=
   { effect := fun i => a.effect i * k, variance := fun i j => a.variance i j * k ^ 2
     dof := a.dof, ctype := a.ctype, tiny := a.tiny, dofmax := a.dofmax }
 
+/-! ## `__div__` -/
+
+/-- `c.__div__(k) = c.__rmul__(1 / float(k))`; `r` is the value of the float quotient `1 / k` -/
+def Obj.div {q : Nat} (k r : Rat) (a : Obj q) : Except String (Obj q) :=
+  if k = 0 then .error "error:zeroDivision" else .ok (a.smul r)
+
+/-- the driver accepts `r` as `1 / k` when it is within one rounding of it -/
+def isRecip (k r : Rat) : Bool :=
+  decide (k ≠ 0) && decide ((r * k - 1) * 2 ^ 52 ≤ 1) && decide ((1 - r * k) * 2 ^ 52 ≤ 1)
+
 /-! ## statistic with a symbolic square root -/
 
 inductive SVal
@@ -128,6 +138,7 @@ inductive HOp (q : Nat)
   | add (other : Obj q)
   | addDim (otherTy : CType)       -- the other operand has a different dimension
   | smul (k : Rat)
+  | div (k r : Rat)                -- `__div__(k)`; `r` is the value of the float quotient `1 / k`
 
 inductive HRet (q : Nat) (σ π ζ : Type)
   | obs (r : Ret σ π ζ)
@@ -159,6 +170,10 @@ def runHist (impl : Impl) : List (HOp q) → Live q σ π → List (HRet q σ π
       | .labs => [.gone]
   | .smul k :: rest, st =>
       .obj (st.obj.smul k) :: runHist impl rest ⟨st.obj.smul k, Cache.init⟩
+  | .div k r :: rest, st =>
+      match st.obj.div k r with
+      | .ok c => .obj c :: runHist impl rest ⟨c, Cache.init⟩
+      | .error e => .err e :: runHist impl rest st
 
 /-- the same history on pure values: no cache, every call evaluated from scratch -/
 def denote (impl : Impl) : List (HOp q) → Obj q → List (HRet q σ π ζ)
@@ -173,6 +188,10 @@ def denote (impl : Impl) : List (HOp q) → Obj q → List (HRet q σ π ζ)
       | .fmri => .err "error:valueError" :: denote impl rest c
       | .labs => [.gone]
   | .smul k :: rest, c => .obj (c.smul k) :: denote impl rest (c.smul k)
+  | .div k r :: rest, c =>
+      match c.div k r with
+      | .ok c' => .obj c' :: denote impl rest c'
+      | .error e => .err e :: denote impl rest c
 end hist
 
 /-! ## the contrast factories -/
@@ -298,6 +317,7 @@ inductive RawOp
   | call (o : Op) (b : Rat)
   | add (o : (q : Nat) × Obj q)
   | smul (k : Rat)
+  | div (k r : Rat)
 
 def pRawOp (impl : Impl) : P RawOp := do
   let t ← pTok
@@ -307,11 +327,15 @@ def pRawOp (impl : Impl) : P RawOp := do
   | "z" => do let b ← pRat; pure (.call .z b)
   | "add" => do let o ← pObj impl; pure (.add o)
   | "mul" => do let k ← pRat; pure (.smul k)
+  | "div" => do
+      let k ← pRat; let r ← pRat
+      if k ≠ 0 ∧ !isRecip k r then failure else pure (.div k r)
   | _ => failure
 
 def toHOp (q : Nat) : RawOp → HOp q
   | .call o b => .call o b
   | .smul k => .smul k
+  | .div k r => .div k r
   | .add ⟨q', o⟩ => if h : q' = q then .add (h ▸ o) else .addDim o.ctype
 
 /-- the executable instance: real statistic, symbolic tails -/
